@@ -87,13 +87,24 @@ class FakeBootloader:
     pass
 
 
+class ShortReads:
+  """File-like source that returns at most 700 characters per read()."""
+
+  def __init__(self, text):
+    self.buf = io.StringIO(text)
+
+  def read(self, n=-1):
+    return self.buf.read(700 if n is None or n < 0 else min(n, 700))
+
+
 def render(sym, i, image_len):
   if sym == 'INFO':
     return 'INFOinfo-%d' % i
   if sym == 'OKAY':
     return 'OKAYok-%d' % i
   if sym == 'FAIL':
-    return 'FAILbad-%d' % i
+    # device text with per-cent signs (it must arrive unchanged in the error)
+    return 'FAILbad-%d only 40%% free, 100%%d %%s' % i
   if sym == 'DATAok':
     return 'DATA%08x' % image_len
   if sym == 'DATAother':
@@ -101,7 +112,7 @@ def render(sym, i, image_len):
   if sym == 'DATAokU':
     return 'DATA%08X' % image_len     # the same size, upper-case hex digits
   if sym == 'garb':
-    return ['XYZWjunk', 'okayx', '', 'INF', 'DAT'][i % 5]
+    return ['XYZWjunk', 'okayx', '', 'INF', 'DAT', 'WHAT50% %s %d'][i % 6]
   raise ValueError(sym)
 
 
@@ -181,7 +192,7 @@ def enumerated(tier):
     for seq in itertools.product(range(NSYM), repeat=n):
       yield {'k': 'dl', 'size': 5, 'src': 'obj', 'seq': list(seq), 'prog': 'none'}
   for size in SIZES:
-    for src in ('name', 'obj', 'obj_len0'):
+    for src in ('name', 'obj', 'obj_len0', 'short'):
       for prog in ('none', 'record', 'raise'):
         for seq in ([2, 1], [0, 2, 0, 1], [3], [2, 4], [2, 0, 0], [1], [2],
                     [6, 1], [0, 6, 1]):
@@ -313,6 +324,10 @@ def run_dl(case, flash_file=False):
     got = _call(lambda: cmds.download(path, **kwargs))
   elif src == 'obj':
     got = _call(lambda: cmds.download(io.StringIO(image), source_len=size,
+                                      **kwargs))
+  elif src == 'short':
+    # a stream whose read(n) may hand back fewer than n characters before EOF
+    got = _call(lambda: cmds.download(ShortReads(image), source_len=size,
                                       **kwargs))
   else:
     got = _call(lambda: cmds.download(io.StringIO(image), **kwargs))
